@@ -262,18 +262,25 @@ def bandlimited_rms(r, psd, wllow=None, wlhigh=None, flow=None, fhigh=None):
         c2 = list(c)
         c2[0] = c2[0] - 1
         c2 = tuple(c2)
+        c3 = list(c)
+        c3[1] = c3[1] - 1
+        c3 = tuple(c3)
         pt1 = r[c]
         pt2 = r[c2]
+        pt3 = r[c3]
     else:
         c = r.shape[0]//2
         pt1 = r[c]
         pt2 = r[c-1]
     # prysm doesn't enforce the user to be "top left" or "lower left" origin,
     # abs makes sure we do things right no matter what
-    dx = abs(pt2 - pt1)
-    reduced = _trapezoid(work, dx=dx, axis=0)
+    dy = abs(pt2 - pt1)
+    reduced = _trapezoid(work, dx=dy, axis=0)
 
     if r.ndim == 2:
+        # the frequency step of the second axis is 1/(N*dx) of that axis,
+        # which differs from the first for non-square data
+        dx = abs(pt3 - pt1)
         reduced = _trapezoid(reduced, dx=dx, axis=0)
 
     return np.sqrt(reduced)
